@@ -36,6 +36,7 @@ type c07Model struct {
 	DirUp    bool
 	Outage   bool
 	PWSerial int
+	Disabled map[string]bool // accounts the directory refuses whatever the password (disabled, locked out, expired)
 }
 
 type c07Env struct {
@@ -57,7 +58,8 @@ func (c *c07Env) reset() {
 	c.dir.SetAll("up")
 	c.side.Exec("delete from expiring_signed_user_data")
 	c.sideC.Exec("delete from expiring_signed_user_data")
-	c.m = &c07Model{DirPW: map[string]string{}, PrevPW: map[string]string{}, Primary: map[string]*c07Row{}, Cache: map[string]*c07Row{}, DirUp: true}
+	c.m = &c07Model{DirPW: map[string]string{}, PrevPW: map[string]string{}, Primary: map[string]*c07Row{}, Cache: map[string]*c07Row{}, DirUp: true, Disabled: map[string]bool{}}
+	c.dir.SetAccountState("", "")
 	for _, u := range c07Users {
 		c.m.DirPW[u] = "pw-" + u + "-0"
 		c.m.PrevPW[u] = "pw-" + u + "-old"
@@ -121,6 +123,12 @@ func (c *c07Env) apply(a c07Action, seqName string) {
 	m := c.m
 	c.trace = append(c.trace, a.String())
 	switch a.Kind {
+	case "account":
+		// the directory refuses the account itself: the answer is still "Invalid Credentials" (result code 49), worded
+		// the way Active Directory words it ("AcceptSecurityContext error, data 533": disabled; 775 locked out; 532
+		// password expired; 701 account expired); "" re-enables
+		c.dir.SetAccountState(a.User, a.Arg)
+		m.Disabled[a.User] = a.Arg != ""
 	case "dir":
 		switch a.Arg {
 		case "up":
@@ -271,8 +279,11 @@ func (c *c07Env) apply(a c07Action, seqName string) {
 		var expect bool
 		var why string
 		if m.DirUp {
-			expect = pw == m.DirPW[u]
+			expect = pw == m.DirPW[u] && !m.Disabled[u]
 			why = "directory answers"
+			if m.Disabled[u] {
+				why = "directory answers: account refused"
+			}
 		} else {
 			store := m.Primary
 			why = "no directory server answers, primary store"
@@ -449,6 +460,12 @@ func TestVerifC07(t *testing.T) {
 		{A("login", "alice", "cur"), A("login", "alice", "cur"), A("login", "alice", "cur"), A("chpw", "alice", ""), A("login", "alice", "prev"), A("login", "alice", "prev"), A("login", "alice", "prev"), A("dir", "", "down"), A("login", "alice", "prev"), A("login", "alice", "prev"), A("login", "alice", "prev"), A("login", "alice", "cur")},
 		// the directory stays final while the primary store is out
 		{A("chpw", "alice", ""), A("outage", "", "on"), A("login", "alice", "prev"), A("login", "alice", "cur"), A("dir", "", "down"), A("login", "alice", "cur")},
+		// the directory refuses the account (disabled / locked out / password expired / account expired, in Active
+		// Directory's wording): a verdict like any other - final, and it evicts the cached password
+		{A("login", "alice", "cur"), A("account", "alice", "533"), A("login", "alice", "cur"), A("dir", "", "down"), A("login", "alice", "cur"), A("dir", "", "up"), A("account", "alice", ""), A("login", "alice", "cur")},
+		{A("login", "bob", "cur"), A("sync", "", ""), A("account", "bob", "775"), A("login", "bob", "cur"), A("sync", "", ""), A("outage", "", "on"), A("dir", "", "error"), A("login", "bob", "cur")},
+		{A("login", "alice", "cur"), A("account", "alice", "532"), A("login", "alice", "wrong"), A("login", "alice", "cur"), A("dir", "", "down"), A("login", "alice", "cur")},
+		{A("login", "alice", "cur"), A("account", "alice", "701"), A("dir", "", "second-down"), A("login", "alice", "cur"), A("dir", "", "down"), A("login", "alice", "cur")},
 		// a refreshed record replaces a tampered one
 		{A("tamper", "alice", "flip-payload"), A("login", "alice", "cur"), A("dir", "", "down"), A("login", "alice", "cur")},
 		{A("chpw", "bob", ""), A("login", "bob", "cur"), A("sync", "", ""), A("dir", "", "down"), A("outage", "", "on"), A("login", "bob", "prev"), A("login", "bob", "cur")},
